@@ -592,6 +592,13 @@ def check_C19(ctx):
     by_tok, ignored = report_races(ctx, "C19", [r for r in reports if r["token"] not in explained], lambda f: not is_broker_field(f), broken)
     part["race_pairs_seen"] = sorted(set(r["token"] for r in reports))
     part["race_reports_on_fields_of_other_properties_ignored"] = ignored
+    # "no corrupted output" under concurrent encrypt.Filter.Rotate: every HMAC value produced while another goroutine rotates
+    # must be attributable to one key generation (the C16 concurrent-rotation search, run here too)
+    try:
+        import eng_encrypt
+        eng_encrypt.concurrent_rotation_part(ctx)
+    except Exception as e:  # the encrypt engine is optional for this check
+        part["concurrent_rotation_part_error"] = repr(e)
     ctx.assumptions += ASSUME_COMMON + [
         "objects reachable only through a guarded field (container/list, maps, *os.File) are accessed only via that field",
         "a function literal passed as an argument is run by the callee synchronously with the caller's lock set (sync.Map.Range, sort.Slice)",
